@@ -66,7 +66,7 @@ def e1_part(prop, tier, seed, level="model_checking"):
         args += ["--cfg-max-secs", "60"]
     else:
         args += ["--cfg-max-secs", "600"]
-    cap = 900 if tier == "quick" else 4 * 3600
+    cap = 1800 if tier == "quick" else 6 * 3600
     shards = run_shards(binary, args, nsh, os.path.join(TARGET, "run", f"{prop}-e1"), cap)
     agg = {k: 0 for k in ("configs", "executions", "complete_executions", "states", "transitions", "pruned", "waited_execs", "hang_execs", "nontrivial_configs", "nontrivial_outcomes", "distinct_outcomes", "expect_hang_configs", "expect_hang_seen")}
     capped, errors, samples, viols = [], [], [], []
